@@ -121,6 +121,12 @@ class Controller:
 #        (session "s<n>" reports the files; the controller writes the contents right before the
 #         process takes its snapshot)
 #   {"type": "commit", "wt": w, "id": n, "empty": bool}                         git commit through the proxy
+#        (single notes writer: notes_add). With "notes_only": true only the sync points of the notes ref are
+#        active (notes.before-lock, notes.before-add) and only the notes ref is modelled.
+#   {"type": "pick", "wt": w, "id": n}      git cherry-pick <X> in linked worktree w, X = an AI commit with a note
+#   {"type": "rebase", "wt": w, "id": n}    git rebase main in linked worktree w, whose branch has one AI commit
+#        (batch notes writers: notes_add_batch = lock, rev-parse of the tip, fast-import `from <tip>`; sync points
+#         notes.before-lock, notes-batch.before-read, notes-batch.before-write; only the notes ref is modelled)
 # plus a schedule (list of process indices; one entry = one sync point of that process's current
 # command), continued round-robin until everything has finished.
 
@@ -372,6 +378,22 @@ class ScenarioRun:
                     repo.write(file_name(f), content_text(lines))
             p = self.ctl.spawn(tag, repo, ["checkpoint", "agent-v1", "--hook-input", json.dumps(payload)],
                                points=["checkpoints"])
+        elif cmd["type"] in ("pick", "rebase"):
+            nk = w.notes_key()
+            self.keys.add(tuple(nk))
+            before = repo.head()
+            argv = ["cherry-pick", self.sources[cmd["id"]]] if cmd["type"] == "pick" else ["rebase", "main"]
+            p = self.ctl.spawn(tag, repo, argv, points=["notes"], proxy=True)
+            sha = repo.head()
+            if sha and sha != before and sha != self.sources[cmd["id"]]:
+                self.commit_sha[cmd["id"]] = sha
+                w.commit_ids[sha] = cmd["id"]
+                self.ops[pid].append({"k": "noteBatch", "key": nk, "id": cmd["id"], "entries": [[cmd["id"], cmd["id"]]]})
+            else:
+                self.failures.append(("commit-not-created", {"cmd": cmd, "rc": p.rc, "stderr": p.err[-400:]}))
+            if p.finished() and not any(t.startswith("notes") for t in p.trace):
+                self.failures.append(("runner-exception", {"error": "the rewrite never reached the batch notes writer",
+                                                           "cmd": cmd, "rc": p.rc, "stderr": p.err[-400:]}))
         else:
             if not cmd.get("empty"):
                 fn = f"c{cmd['id']}.txt"
@@ -380,12 +402,15 @@ class ScenarioRun:
                 repo.git("add", fn)
             key = w.rw_key(cmd["wt"])
             nk = w.notes_key()
-            self.keys.add(tuple(key)); self.keys.add(tuple(nk))
-            self.ops[pid].append({"k": "rw", "key": key, "ev": cmd["id"]})
+            self.keys.add(tuple(nk))
+            if not cmd.get("notes_only"):
+                self.keys.add(tuple(key))
+                self.ops[pid].append({"k": "rw", "key": key, "ev": cmd["id"]})
             self.ops[pid].append({"k": "noteAdd", "key": nk, "id": cmd["id"], "commit": cmd["id"], "note": cmd["id"]})
             args = ["commit", "-q", "-m", f"commit {cmd['id']}"] + (["--allow-empty"] if cmd.get("empty") else [])
             before = repo.head()
-            p = self.ctl.spawn(tag, repo, args, points=["rewrite_log", "notes"], proxy=True)
+            p = self.ctl.spawn(tag, repo, args, points=["notes"] if cmd.get("notes_only") else ["rewrite_log", "notes"],
+                               proxy=True)
             sha = repo.head()
             if sha and sha != before:
                 self.commit_sha[cmd["id"]] = sha
@@ -404,6 +429,45 @@ class ScenarioRun:
                 self.failures.append(("process-failed", {"cmd": p.cmd, "rc": p.rc, "stderr": p.err[-600:]}))
             self.start_next(pid)
             p = self.cur[pid]
+
+    def prepare(self):
+        """material of the rewrite commands, made before any controlled process starts (so that no setup command
+        ever waits for a lock a paused process holds)"""
+        w = self.world
+        self.sources = {}
+        for prog in self.sc["procs"]:
+            for cmd in prog:
+                if cmd["type"] not in ("pick", "rebase"):
+                    continue
+                n, repo = cmd["id"], w.wts[cmd["wt"]]
+                if cmd["wt"] == 0:
+                    raise ValueError("pick / rebase run in a linked worktree")
+                fn = f"c{n}.txt"
+                if cmd["type"] == "pick":
+                    # X: an AI commit (with a note) on a side branch; the worktree's own branch gets a human commit
+                    repo.git("checkout", "-q", "-b", f"src{n}", check=True)
+                    repo.write(fn, f"AI{n}\n")
+                    repo.ai_checkpoint(session(n), [fn])
+                    repo.git("add", fn)
+                    x = repo.commit(f"X{n}")
+                    repo.git("checkout", "-q", f"b{cmd['wt']}", check=True)
+                    repo.write(f"h{n}.txt", f"human{n}\n")
+                    repo.git("add", f"h{n}.txt")
+                    repo.commit(f"human {n}")
+                else:
+                    # the worktree's branch gets an AI commit (with a note); main moves on by a human commit
+                    repo.write(fn, f"AI{n}\n")
+                    repo.ai_checkpoint(session(n), [fn])
+                    repo.git("add", fn)
+                    x = repo.commit(f"A{n}")
+                    if not getattr(self, "_main_moved", False):
+                        self._main_moved = True
+                        w.main.write("m.txt", "m\n")
+                        w.main.git("add", "m.txt")
+                        w.main.commit("main moves on")
+                if not x or x not in w.main.notes_list():
+                    raise RuntimeError(f"setup: source commit of {cmd} has no note")
+                self.sources[n] = x
 
     def snapshot_initial(self):
         """initial contents of the cells the scenario can touch (taken before any process starts)"""
@@ -427,11 +491,14 @@ class ScenarioRun:
         nxt = self.ctl.release(p)
         self.phys.append((pid, pt, nxt))
         self.step_times.append(round(time.time() - t0, 3))
-        self.model_sched += [pid] * (2 if pt == "notes.before-add" else 1)
+        # one release = two model steps where git-ai has no point in between: `git notes add` (read, write) and
+        # the batch writer's rev-parse followed by the assembly of the fast-import script (read, build)
+        self.model_sched += [pid] * (2 if pt in ("notes.before-add", "notes-batch.before-read") else 1)
         self.after_settle(pid)
         return True
 
     def run(self):
+        self.prepare()
         self.snapshot_initial()
         try:
             for pid in range(len(self.sc["procs"])):
@@ -460,7 +527,7 @@ def phys_tag(pt, nxt):
     if suf == "before-snapshot":
         return [f"{kind}:snap"]          # snap / snap-noop are told apart by the journal, not the trace
     if suf == "before-read":
-        return [f"{kind}:read"]
+        return [f"{kind}:read"] + ([f"{kind}:build"] if kind == "batch" else [])
     if suf == "before-write":
         return [f"{kind}:write"]
     if suf == "before-add":
@@ -487,6 +554,8 @@ def interleavings(counts):
 # ===================================================================== model comparison
 
 def norm_tag(t):
+    # the batch writer takes the same lock file as the single writer: its lock point is `notes.before-lock`
+    t = t.replace("batch:acq", "note:acq").replace("batch:blocked", "note:blocked")
     return t.replace("snap-noop", "snap").replace("cas-fail", "write")
 
 
